@@ -42,7 +42,10 @@ RowOf(n) == Rows[CHOOSE i \in 1..Len(Rows) : Rows[i].name = n]
 RecNum == [n \in RecNames |-> [m |-> RowOf(n).m, e |-> RowOf(n).e]]
 RecK == [n \in RecNames |-> IF n \in Names THEN MinI2(Ref[n].k, RowOf(n).sig) ELSE RowOf(n).sig]
 
-TSteps == Len(Rows) + Len(IdSeq)
+\* twelve-digit values of the recorded constants (limbs hl, exponent he)
+RecH == [n \in RecNames |-> [l |-> RowOf(n).hl, e |-> RowOf(n).he]]
+
+TSteps == Len(Rows) + Len(IdSeq) + Len(HIdSeq)
 TInit == tb \in 1..Len(Tables) /\ step = 1          \* one initial state per table
 TNext == step < TSteps /\ step' = step + 1 /\ UNCHANGED tb
 
@@ -54,7 +57,15 @@ RowVerdict == step <= Len(Rows) =>
                         digits |-> RowK(r), dist |-> BDist([m |-> r.m, e |-> r.e], Num(Ref[r.name])),
                         refm |-> Ref[r.name].m, refe |-> Ref[r.name].e]))
 
-IdVerdict == step > Len(Rows) =>
+\* the relations that hold to parts in 10^10, in twelve-digit arithmetic
+HIdVerdict == step > Len(Rows) + Len(IdSeq) =>
+  LET id == HIdSeq[step - Len(Rows) - Len(IdSeq)] IN
+    IF ~(Involved(id) \subseteq RecNames) THEN PrintT(ToJson([tb |-> tb, hid |-> id, evaluated |-> FALSE]))
+    ELSE PrintT(ToJson([tb |-> tb, hid |-> id, evaluated |-> TRUE, holds |-> HIdHolds(id, RecH),
+                        q |-> HTolQ(id), dist |-> HDist(HLhs(id, RecH), HRhs(id, RecH)),
+                        lhs |-> HLhs(id, RecH), rhs |-> HRhs(id, RecH)]))
+
+IdVerdict == (step > Len(Rows) /\ step <= Len(Rows) + Len(IdSeq)) =>
   LET id == IdSeq[step - Len(Rows)] IN
     IF ~(Involved(id) \subseteq RecNames) THEN PrintT(ToJson([tb |-> tb, id |-> id, evaluated |-> FALSE]))
     \* mutual consistency does not depend on how coarsely the library happens to WRITE a constant:
